@@ -1,12 +1,8 @@
 Require Import AS.Base.Prelude AS.Base.Hex AS.Base.Dec AS.Gen.Extracted AS.Model.ScheduleTools AS.Model.NextRun
-  AS.Model.ScheduleParser AS.Model.Messages AS.Proofs.HexSlices AS.Proofs.MessagesProofs AS.Proofs.ScheduleProofs
+  AS.Model.ScheduleParser AS.Model.Messages AS.Spec.Encoders AS.Proofs.HexSlices AS.Proofs.MessagesProofs AS.Proofs.ScheduleProofs
   AS.Proofs.ClockProofs.
 Open Scope N_scope.
 Ltac Zify.zify_post_hook ::= Z.to_euclidean_division_equations.
-
-(* a 16-byte schedule record as the device lists it *)
-Definition record (id enabled mask state start_ end_ : N) (t0 t1 t2 t3 : N) : bytes :=
-  [id; enabled; mask; state] ++ le32 start_ ++ le32 end_ ++ [t0; t1; t2; t3].
 
 Lemma record_length id en mask st s e t0 t1 t2 t3 : length (record id en mask st s e t0 t1 t2 t3) = 16%nat.
 Proof. reflexivity. Qed.
